@@ -172,13 +172,14 @@ type verifSubEvent struct {
 }
 
 type verifMgr struct {
-	m      *manager
-	net    *verifNet
-	tr     *verifTransport
-	g      *channels.VerifGroup
-	val    *verifValidator
-	events []verifSubEvent
-	rcv    *receiver
+	m        *manager
+	net      *verifNet
+	tr       *verifTransport
+	g        *channels.VerifGroup
+	val      *verifValidator
+	otherVal *verifValidator
+	events   []verifSubEvent
+	rcv      *receiver
 }
 
 // verifNewManager builds a manager through the REAL NewDataTransfer + Start with recording doubles.
@@ -228,6 +229,14 @@ func verifArbitraryRequest(label string) *message1_1.TransferRequest1_1 {
 	if zz.Bool(label + ".hasVoucher") {
 		r.VoucherPtr = zz.Node(label + ".Voucher")
 	}
+	return r
+}
+
+// verifScalarRequest is a request with arbitrary scalar fields and no base CID / selector / voucher
+// (callers fill those in), avoiding the 8-way fork of verifArbitraryRequest.
+func verifScalarRequest(label string) *message1_1.TransferRequest1_1 {
+	r := &message1_1.TransferRequest1_1{}
+	zz.Symbolic(r, label)
 	return r
 }
 
